@@ -174,6 +174,16 @@ check("C16", "proof",
       "assumed re-entrant; a deterministic schedule exploration (1 preemption at every library line event; 2 preemptions on a "
       "grid; preemption during environment creation) is the bounded stand-in that replays refutations.",
       "contract-based deductive verification of a sufficient condition (thread confinement via frame obligations) + bounded schedule replay", "DESIGN.md 4/C16")
+check("C07", "proof",
+      "Regular-language obligations discharged by z3's regex solver on the patterns extracted from the real grammar and "
+      "decoder: for every string-literal branch of cel.lark, every body the lexer accepts is tokenised completely by "
+      "CEL_ESCAPES_PAT (finditer skips no character); every escape alternative has the fixed width its spelling prescribes "
+      "(2/4/6/10). The escape table of the statement is enumerated (all 256 \\xHH and \\ooo, the ten single-character "
+      "escapes, \\u / \\U samples and boundaries, strings and bytes, both runners).",
+      "the leftmost-first decode loop, slicing per quoting style, numeric spellings (decimal/hex/sign/leading zeros, int64/"
+      "uint64 boundaries, floats) and the encode->evaluate round trip are bounded stand-ins against a reference decoder "
+      "written from the statement (bodies up to length 3-4 over a 16-symbol adversarial alphabet x 8 quoting styles x 2 runners).",
+      "regular-language obligations (z3 regex) + exhaustive finite escape table + bounded-exhaustive decoding differential", "DESIGN.md 4/C07")
 _pending = "contracts for this property are not built yet in this revision (work in progress, see DESIGN.md section 8 build order)"
-for _p in ["C03","C04","C06","C07"]:
+for _p in ["C03","C04","C06"]:
     NA[_p] = _pending
